@@ -184,7 +184,9 @@ MachineObs ==
   [cells |-> Triples(d.cells), ref |-> Triples(rf.cells), aa |-> AffectedArea(d), raa |-> AffectedArea(rf),
    eq |-> IF Eq(d, rf) THEN 1 ELSE 0, eqr |-> IF Eq(rf, d) THEN 1 ELSE 0, ne |-> IF Eq(d, rf) THEN 0 ELSE 1,
    diff |-> Triples(Diff(d, rf)),
-   outside |-> OutsideSeq(FALSE)]
+   outside |-> OutsideSeq(FALSE),
+   daa |-> AffectedAreaOf(Diff(d, rf)), sw |-> Triples(SwapXY(d.cells)), swaa |-> AffectedAreaOf(SwapXY(d.cells)),
+   mp |-> Triples(d.cells), mpaa |-> AffectedArea(d)]
 ObsOK == ObsFails(d, rf, MachineObs) = {}
 \* negative control (MC_C20_d25.cfg): get_pixel as it was before the repair D25 must be refuted
 ObsOKPinned == ObsFails(d, rf, [MachineObs EXCEPT !.outside = OutsideSeq(TRUE)]) = {}
